@@ -50,7 +50,7 @@ def program_consts(box, ops, pre, record):
         Prog=tlc.Raw('("w" :> %s)' % tlc.tla(seq)),
         BatchOf=tlc.Raw('("w" :> 0)'),
         FullOf=tlc.Raw('("w" :> [n \\in mc_Names |-> %s 0])' % " ".join('IF n = "%s" THEN %d ELSE' % (n, c) for n, c in sorted(full.items()))),
-        NB=crash.NBATCH, Counted=tlc.Raw("{}"), NPolls=0, MaxSleeps=0, WithReaper=False, MaxCrashes=1, Record=record,
+        NB=crash.NBATCH, Counted=tlc.Raw("{}"), Pollers=tlc.Raw("{}"), NPolls=0, MaxSleeps=0, WithReaper=False, MaxCrashes=1, Record=record,
         Pre=tlc.Raw("(" + " @@ ".join('"%s" :> "%s"' % (n, pre[n]) for n in sorted(names)) + ")"),
         SowFiles=sowfiles | {"info", "fn"} | {"bat%d" % i for i in range(1, crash.NBATCH + 1)},
         DataFiles={"data"} if "data" in names else tlc.Raw("{}"), WithRecovery=True)
